@@ -19,6 +19,16 @@ element position / slice window selected by the SQL equals Python's.
 Part B (CrossHair, checks/h_c29.py): JSON path strings (eval_json_path -> _parse_path round trip; PostgreSQL path literal
 against a reference reader of the array-literal syntax), the SQLite Python fallbacks py_json_* / _traverse / py_array_* on
 symbolic documents, JSON truthiness (JSON_NONZERO's textual NOT IN list against bool()).
+
+Part C (CrossHair as the chooser, checks/h_c29.py section 4): end to end on a real in-memory SQLite database - the real
+translator monads (JsonMixin, JsonItemMonad, ArrayMixin), the real builder and SQLite with json1 or with pony's Python
+fallbacks (provider.json1_available flipped per path): document, operation (path access, comparison with a scalar, key /
+item membership, len, truthiness, array index / slice / contains / subset), keys and the json1 switch are solver-chosen
+from pools; the answer is compared with the same expression evaluated by Python on the decoded value.
+
+Deviations from DESIGN.md: the json_path_re round trip is decided by CrossHair alone (it confirms for keys len <= 3; no z3
+regex encoding was needed); documents that pass through json.dumps/loads come from pools (concrete per path) instead of
+being fully symbolic; Part C was added because the kernels do not touch the translator's JSON monads.
 """
 import itertools, os, time
 import z3
@@ -377,7 +387,8 @@ H_JSON = ('path_roundtrip_sqlite_1', 'path_roundtrip_sqlite_quote', 'path_roundt
           'traverse_1', 'traverse_2_list', 'traverse_2_dict', 'traverse_str_key_on_list', 'traverse_no_keys',
           'json_extract', 'json_query_top_level_array', 'json_contains_nonzero_length', 'json_length_non_array', 'json_unwrap',
           'json_truthiness_sqlite', 'json_truthiness_sqlite_float', 'json_truthiness_postgres',
-          'array_index', 'array_contains', 'array_contains_str', 'array_subset', 'array_slice')
+          'array_index', 'array_contains', 'array_contains_str', 'array_subset', 'array_slice',
+          'json_e2e_json1', 'json_e2e_fallback', 'json_e2e_negative_index', 'json_e2e_scalar_compare', 'array_e2e')
 
 
 def classify(spec, cex):
@@ -402,7 +413,12 @@ def run(tier, seed, only=None):
            sqlbuilding.SQLBuilder.CASE, sqlbuilding.SQLBuilder.eval_json_path, pg.PGSQLBuilder.eval_json_path, sq._parse_path, sq._traverse,
            sq._extract, sq.py_json_extract, sq.py_json_contains, sq.py_json_nonzero, sq.py_json_array_length, sq.py_json_unwrap,
            sq.SQLiteBuilder.JSON_NONZERO, pg.PGSQLBuilder.JSON_NONZERO, sq.py_array_index, sq.py_array_contains, sq.py_array_subset,
-           sq.py_array_length, sq.py_array_slice, sq.wrap_array_func)
+           sq.py_array_length, sq.py_array_slice, sq.wrap_array_func,
+           sqltranslation.JsonMixin.contains, sqltranslation.JsonMixin.len, sqltranslation.JsonMixin.nonzero, sqltranslation.JsonItemMonad.get_path,
+           sqltranslation.JsonItemMonad.cast_from_json, sqltranslation.JsonItemMonad.getsql, sqltranslation.ArrayMixin.contains,
+           sqltranslation.ArrayMixin.len, sqltranslation.ArrayMixin.nonzero, sqlbuilding.SQLBuilder.build_json_path,
+           sq.SQLiteBuilder.JSON_QUERY, sq.SQLiteBuilder.JSON_VALUE, sq.SQLiteBuilder.JSON_CONTAINS, sq.SQLiteBuilder.JSON_ARRAY_LENGTH,
+           sq.SQLiteBuilder.ARRAY_CONTAINS, sq.SQLiteBuilder.ARRAY_SUBSET)
     K = 2 if tier == 'quick' else 5
     rep.bounds = {'array length n': 'all integers >= 0', 'parameter and column bounds': 'all integers (and NULL / None)',
                   'constant bounds': '[-%d, %d]' % (K, K), 'dialects': [d for _, d in DIALECTS]}
@@ -441,6 +457,7 @@ def run(tier, seed, only=None):
         'documents (traverse)': 'top scalar / list / dict of 0-2 entries, entry 0 leaf / list / dict of 0-2 leaves; leaves symbolic int, str len <= 1, bool, null; '
                                 'keys: unbounded symbolic int, symbolic str len <= 1 over {a, b}',
         'documents (through JSON text)': '18 entry values (10 scalars incl. float, 8 nested containers) x 3-5 top shapes x paths of 0-2 keys from 4-6 pooled keys',
+        'end to end (real SQLite, json1 on/off)': '5 documents x 20 operations x 8 x 3 keys; 13 leaves x 7 constants x ==/!= ; 4 arrays x 15 operations',
         'truthiness': '21 scalar/container candidates + 6 floats + missing path', 'arrays': 'symbolic List[int] len <= 3 with unbounded index/item; '
                       'List[str]; through JSON text: 8 arrays x 10 item lists, slices of n <= 4 with bounds in [-5, 5] or None'})
     rep.assumptions += ['functions that serialise (json.dumps/loads, %d formatting, regex) are run on solver-chosen pool members (concrete per path), the others on symbolic values',
